@@ -15,7 +15,7 @@ Anything that does not fit raises TranslationError (handled like a broken bridge
 from __future__ import annotations
 import ast
 import re
-from typing import Dict, List, Optional, Tuple
+from typing import Any, Dict, List, Optional, Tuple
 
 from .py2lean import TranslationError, find_class, find_func, strip_doc, is_logger_call, lean_list
 from .common import parse, read, HEADER, exc_names, lean_exc
@@ -78,58 +78,256 @@ def is_raise_typeerror(st) -> bool:
 
 
 # ---------------------------------------------------------------------------------------------------------------
+# a tiny symbolic executor (round 2): the small decision functions (`type_matched`, `boolean()`, the scalar comparison
+# dunders) are *run* on symbolic operands under every valuation of their atomic tests, and the specification is read off
+# the outcomes — so early returns vs. else chains, conditional expressions, merged/split tests, loops over a literal tuple,
+# renamed or hoisted locals, `cast`, comments/docstrings/logging and one level of extracted module-level helper functions
+# do not matter, while anything that changes an outcome (or that the executor does not understand) still does.
+# ---------------------------------------------------------------------------------------------------------------
+
+class _Return(Exception):
+    def __init__(self, value):
+        self.value = value
+
+
+class _Raise(Exception):
+    def __init__(self, name):
+        self.name = name
+
+
+UNHANDLED = object()
+# symbolic values (NUL-prefixed so that no string constant of the source can be mistaken for one)
+S_SELF = "\0SELF"
+S_OTHER = "\0OTHER"
+S_CALL = "\0CALL"
+S_A = "\0A"
+S_B = "\0B"
+S_F = "\0F"
+S_R = "\0R"
+S_NI = "\0NI"
+S_SUPER = "\0SUPER"
+
+
+class SymExec:
+    """Straight-line Python with `if`, `for x in (<literal tuple>)`, assignments to names, `return`, `raise T(...)`.
+    `atom(node, ev)` resolves the calls / comparisons that carry meaning (returns UNHANDLED otherwise);
+    `name(id)` resolves free names.  Conditions must evaluate to concrete Python bools."""
+
+    def __init__(self, what: str, atom, name=None, module: Optional[ast.Module] = None, inline_depth: int = 1):
+        self.what, self.atom, self.name, self.module, self.inline_depth = what, atom, name, module, inline_depth
+
+    def fail(self, msg):
+        raise TranslationError(f"{self.what}: {msg}")
+
+    def run(self, body, env) -> Any:
+        """-> ('return', value) | ('raise', class name)"""
+        try:
+            self.block(body, env)
+        except _Return as r:
+            return ("return", r.value)
+        except _Raise as r:
+            return ("raise", r.name)
+        return ("return", None)
+
+    def block(self, body, env):
+        for st in body:
+            self.stmt(st, env)
+
+    def stmt(self, st, env):
+        if isinstance(st, ast.Expr):
+            if isinstance(st.value, ast.Constant) or is_logger_call(st):
+                return
+            self.fail(f"statement outside the subset: {ast.unparse(st)[:80]!r}")
+        if isinstance(st, ast.Pass):
+            return
+        if isinstance(st, ast.Assign) and len(st.targets) == 1 and isinstance(st.targets[0], ast.Name):
+            env[st.targets[0].id] = self.expr(st.value, env)
+            return
+        if isinstance(st, ast.AnnAssign) and isinstance(st.target, ast.Name) and st.value is not None:
+            env[st.target.id] = self.expr(st.value, env)
+            return
+        if isinstance(st, ast.If):
+            self.block(st.body if self.truth(self.expr(st.test, env), st.test) else st.orelse, env)
+            return
+        if isinstance(st, ast.For) and isinstance(st.target, ast.Name) and not st.orelse:
+            items = self.expr(st.iter, env)
+            if not isinstance(items, tuple):
+                self.fail(f"loop over something that is not a literal tuple/list: {ast.unparse(st.iter)[:60]!r}")
+            for it in items:
+                env[st.target.id] = it
+                self.block(st.body, env)
+            return
+        if isinstance(st, ast.Return):
+            raise _Return(self.expr(st.value, env) if st.value is not None else None)
+        if isinstance(st, ast.Raise) and st.exc is not None and st.cause is None:
+            e = st.exc
+            if isinstance(e, ast.Call) and isinstance(e.func, ast.Name):
+                raise _Raise(e.func.id)
+            if isinstance(e, ast.Name) and e.id not in env:
+                raise _Raise(e.id)
+        self.fail(f"statement outside the subset: {ast.unparse(st)[:80]!r}")
+
+    def truth(self, v, node) -> bool:
+        if isinstance(v, bool):
+            return v
+        self.fail(f"test that is not decided by the atomic tests: {ast.unparse(node)[:80]!r}")
+
+    def expr(self, e, env):
+        e = uncast(e)
+        if isinstance(e, ast.Constant):
+            return e.value
+        if isinstance(e, ast.Name):
+            if e.id in env:
+                return env[e.id]
+            if self.name is not None:
+                v = self.name(e.id)
+                if v is not UNHANDLED:
+                    return v
+            self.fail(f"free name {e.id!r}")
+        if isinstance(e, (ast.Tuple, ast.List)):
+            return tuple(self.expr(x, env) for x in e.elts)
+        if isinstance(e, ast.UnaryOp) and isinstance(e.op, ast.Not):
+            return not self.truth(self.expr(e.operand, env), e.operand)
+        if isinstance(e, ast.BoolOp):
+            is_and = isinstance(e.op, ast.And)
+            for x in e.values:
+                t = self.truth(self.expr(x, env), x)
+                if t != is_and:
+                    return t
+            return is_and
+        if isinstance(e, ast.IfExp):
+            return self.expr(e.body if self.truth(self.expr(e.test, env), e.test) else e.orelse, env)
+        if isinstance(e, (ast.Call, ast.Compare)):
+            v = self.atom(e, lambda x: self.expr(x, env))
+            if v is not UNHANDLED:
+                return v
+            if isinstance(e, ast.Call):
+                v = self.inline(e, env)
+                if v is not UNHANDLED:
+                    return v
+        self.fail(f"expression outside the subset: {ast.unparse(e)[:80]!r}")
+
+    def inline(self, call: ast.Call, env):
+        """one level of module-level helper functions without decorators, positional parameters only"""
+        if (self.module is None or self.inline_depth <= 0 or not isinstance(call.func, ast.Name) or call.func.id in env
+                or call.keywords):
+            return UNHANDLED
+        defs = [n for n in self.module.body if isinstance(n, ast.FunctionDef) and n.name == call.func.id]
+        if len(defs) != 1 or defs[0].decorator_list:
+            return UNHANDLED
+        fn = defs[0]
+        a = fn.args
+        if a.vararg or a.kwarg or a.kwonlyargs or a.defaults or a.posonlyargs or len(a.args) != len(call.args):
+            return UNHANDLED
+        sub = SymExec(self.what + f" -> {fn.name}", self.atom, self.name, self.module, self.inline_depth - 1)
+        kind, val = sub.run(strip_doc(fn.body), {p.arg: self.expr(x, env) for p, x in zip(a.args, call.args)})
+        if kind == "raise":
+            raise _Raise(val)
+        return val
+
+
+def unique_func(mod: ast.Module, name: str) -> ast.FunctionDef:
+    """the module-level `def name` — exactly one, and the name is not rebound by an assignment / import / class (the last binding wins in Python)"""
+    defs = [n for n in mod.body if isinstance(n, ast.FunctionDef) and n.name == name]
+    other = [n for n in mod.body
+             if (isinstance(n, (ast.Assign, ast.AnnAssign, ast.AugAssign))
+                 and name in {x.id for x in ast.walk(n) if isinstance(x, ast.Name) and isinstance(x.ctx, ast.Store)})
+             or (isinstance(n, ast.ClassDef) and n.name == name)
+             or (isinstance(n, (ast.Import, ast.ImportFrom)) and any((al.asname or al.name).split(".")[0] == name for al in n.names))]
+    if len(defs) != 1 or other:
+        raise TranslationError(f"{name}: expected exactly one module-level definition (found {len(defs)} defs, {len(other)} other bindings)")
+    return defs[0]
+
+
+def unique_binding(mod: ast.Module, name: str) -> None:
+    n = 0
+    for st in mod.body:
+        if isinstance(st, (ast.FunctionDef, ast.ClassDef)) and st.name == name:
+            n += 1
+        elif isinstance(st, (ast.Assign, ast.AnnAssign, ast.AugAssign)) and name in {x.id for x in ast.walk(st) if isinstance(x, ast.Name) and isinstance(x.ctx, ast.Store)}:
+            n += 1
+    if n != 1:
+        raise TranslationError(f"{name}: bound {n} times at module level")
+
+
+def _single_inner(fn: ast.FunctionDef, what: str) -> ast.FunctionDef:
+    """the decorator shape `def outer(f): @wraps(f) def inner(...): ...; return inner`"""
+    inner = [s for s in fn.body if isinstance(s, ast.FunctionDef)]
+    if len(inner) != 1:
+        raise TranslationError(f"{what}: expected one inner function")
+    inner = inner[0]
+    if [ast.unparse(d) for d in inner.decorator_list] not in ([], [f"wraps({fn.args.args[0].arg})"]):
+        raise TranslationError(f"{what}: unexpected decorators on the inner function")
+    rest = [s for s in strip_doc(fn.body) if s is not inner and not is_logger_call(s)]
+    if not (len(rest) == 1 and isinstance(rest[0], ast.Return) and ast.unparse(rest[0].value) == inner.name):
+        raise TranslationError(f"{what}: must consist of the inner function and `return {inner.name}`")
+    a = inner.args
+    if a.vararg or a.kwarg or a.kwonlyargs or a.defaults or len(a.args) != 2:
+        raise TranslationError(f"{what}: inner function must take exactly two positional parameters")
+    return inner
+
+
+# ---------------------------------------------------------------------------------------------------------------
 # type_matched
 # ---------------------------------------------------------------------------------------------------------------
 
 def extract_type_matched(mod: ast.Module) -> Tuple[bool, bool, bool]:
-    fn = find_func(mod.body, "type_matched")
-    inner = [s for s in fn.body if isinstance(s, ast.FunctionDef)]
-    if len(inner) != 1:
-        raise TranslationError("type_matched: expected one inner function")
-    inner = inner[0]
-    params = [a.arg for a in inner.args.args]
-    if len(params) != 2:
-        raise TranslationError("type_matched: inner function must take (self, other)")
-    body = body_of(inner)
-    if len(body) != 2 or not isinstance(body[0], ast.If) or not isinstance(body[1], ast.Return):
-        raise TranslationError("type_matched: expected `if not (...): raise`, `return method(self, other)`")
-    ret = body[1].value
-    if not (isinstance(ret, ast.Call) and len(ret.args) == 2 and [ast.unparse(a) for a in ret.args] == params
-            and isinstance(ret.func, ast.Name) and ret.func.id == [a.arg for a in fn.args.args][0]):
-        raise TranslationError("type_matched: must return method(self, other)")
-    test = body[0].test
-    if not (isinstance(test, ast.UnaryOp) and isinstance(test.op, ast.Not)):
-        raise TranslationError("type_matched: test must be `not (...)`")
-    cond = test.operand
-    terms = cond.values if isinstance(cond, ast.BoolOp) and isinstance(cond.op, ast.Or) else [cond]
-    other_sub_self = self_sub_other = False
-    for t in terms:
-        if not (isinstance(t, ast.Call) and isinstance(t.func, ast.Name) and t.func.id == "issubclass" and len(t.args) == 2):
-            raise TranslationError(f"type_matched: unexpected term {ast.unparse(t)}")
-        a, b = [ast.unparse(x) for x in t.args]
-        s, o = f"type({params[0]})", f"type({params[1]})"
-        if (a, b) == (o, s):
-            other_sub_self = True
-        elif (a, b) == (s, o):
-            self_sub_other = True
-        else:
-            raise TranslationError(f"type_matched: unexpected issubclass arguments {a}, {b}")
-    raises = len(body[0].body) == 1 and is_raise_typeerror(body[0].body[0]) and not body[0].orelse
-    return other_sub_self, self_sub_other, raises
+    """run the inner function under the four valuations of (issubclass(type(other), type(self)), issubclass(type(self), type(other)))"""
+    fn = unique_func(mod, "type_matched")
+    inner = _single_inner(fn, "type_matched")
+    method = fn.args.args[0].arg
+    ps, po = [a.arg for a in inner.args.args]
+    out = {}
+    for o_sub_s in (False, True):
+        for s_sub_o in (False, True):
+            def atom(node, ev, o_sub_s=o_sub_s, s_sub_o=s_sub_o):
+                if isinstance(node, ast.Call) and isinstance(node.func, ast.Name) and not node.keywords:
+                    f, args = node.func.id, node.args
+                    def type_of(x):
+                        x = uncast(x)
+                        if isinstance(x, ast.Call) and isinstance(x.func, ast.Name) and x.func.id == "type" and len(x.args) == 1:
+                            return ev(x.args[0])
+                        return None
+                    pair = None
+                    if f == "issubclass" and len(args) == 2:
+                        pair = (type_of(args[0]), type_of(args[1]))
+                    elif f == "isinstance" and len(args) == 2:
+                        pair = (ev(args[0]), type_of(args[1]))
+                    if pair is not None:
+                        if pair == (S_OTHER, S_SELF):
+                            return o_sub_s
+                        if pair == (S_SELF, S_OTHER):
+                            return s_sub_o
+                        if pair in ((S_SELF, S_SELF), (S_OTHER, S_OTHER)):
+                            return True
+                        raise TranslationError(f"type_matched: unexpected class test {ast.unparse(node)}")
+                    if f == method and len(args) == 2 and [ev(a) for a in args] == [S_SELF, S_OTHER]:
+                        return S_CALL
+                return UNHANDLED
+            out[(o_sub_s, s_sub_o)] = SymExec("type_matched", atom, module=mod).run(body_of(inner), {ps: S_SELF, po: S_OTHER})
+    call, te = ("return", S_CALL), ("raise", "TypeError")
+    for k, v in out.items():
+        if v not in (call, te):
+            raise TranslationError(f"type_matched: outcome {v} for (other⊆self, self⊆other) = {k} is neither the method call nor TypeError")
+    if out[(True, True)] != call:
+        raise TranslationError("type_matched: operands of the same class are rejected")
+    other_sub_self = out[(True, False)] == call
+    self_sub_other = out[(False, True)] == call
+    return other_sub_self, self_sub_other, out[(False, False)] == te
 
 
 # ---------------------------------------------------------------------------------------------------------------
 # container reductions
 # ---------------------------------------------------------------------------------------------------------------
 
-def extract_cont(fn: ast.FunctionDef, is_map: bool) -> Dict[str, bool]:
+def extract_cont(fn: ast.FunctionDef, is_map: bool, mod: Optional[ast.Module] = None) -> Dict[str, bool]:
     params = [a.arg for a in fn.args.args]
     if len(params) != 2:
         raise TranslationError(f"{fn.name}: expected (self, other)")
     S, Oth = params
     spec = dict(noneIsFalse=False, foreignRaises=False, sizeTestEq=None, connAnd=None, reducerAnd=None, init=None,
                 elemEq=None, capturesTE=False, reraises=False, singleton=False)
-    helper: Optional[str] = None
+    helpers: Dict[str, Tuple[bool, bool]] = {}      # local helper name -> (elemEq, capturesTE)
     keyvars: Dict[str, str] = {}          # local name -> "self" / "other" for `x = self.keys()`
     result_var: Optional[str] = None
     returned = False
@@ -167,25 +365,8 @@ def extract_cont(fn: ast.FunctionDef, is_map: bool) -> Dict[str, bool]:
             raise TranslationError(f"{fn.name}: unexpected singleton branch")
         # helper: def equal(s, o): try: return BoolType(s == o) except TypeError as ex: return cast(BoolType, ex)
         if isinstance(st, ast.FunctionDef):
-            hp = [a.arg for a in st.args.args]
-            hb = body_of(st)
-            if len(hp) == 2 and len(hb) == 1 and isinstance(hb[0], ast.Try) and len(hb[0].body) == 1 and isinstance(hb[0].body[0], ast.Return):
-                r = uncast(hb[0].body[0].value)
-                if (isinstance(r, ast.Call) and ast.unparse(r.func) == "BoolType" and len(r.args) == 1
-                        and isinstance(r.args[0], ast.Compare) and len(r.args[0].ops) == 1
-                        and ast.unparse(r.args[0].left) == hp[0] and ast.unparse(r.args[0].comparators[0]) == hp[1]
-                        and type(r.args[0].ops[0]) in (ast.Eq, ast.NotEq)):
-                    spec["elemEq"] = isinstance(r.args[0].ops[0], ast.Eq)
-                    hs = hb[0].handlers
-                    if (len(hs) == 1 and exc_names(hs[0].type) == ["TypeError"] and hs[0].name and len(hs[0].body) == 1
-                            and isinstance(hs[0].body[0], ast.Return) and ast.unparse(uncast(hs[0].body[0].value)) == hs[0].name
-                            and not hb[0].orelse and not hb[0].finalbody):
-                        spec["capturesTE"] = True
-                    elif hs:
-                        raise TranslationError(f"{fn.name}: unexpected handlers in {st.name}")
-                    helper = st.name
-                    continue
-            raise TranslationError(f"{fn.name}: unexpected helper {st.name}")
+            helpers[st.name] = analyze_helper(st, fn.name)
+            continue
         # keys_s = self.keys()
         if (isinstance(st, ast.Assign) and len(st.targets) == 1 and isinstance(st.targets[0], ast.Name)
                 and ast.unparse(st.value) in (f"{S}.keys()", f"{Oth}.keys()")):
@@ -217,9 +398,24 @@ def extract_cont(fn: ast.FunctionDef, is_map: bool) -> Dict[str, bool]:
             if ast.unparse(init) not in ("BoolType(True)", "BoolType(False)"):
                 raise TranslationError(f"{fn.name}: initial value {ast.unparse(init)}")
             spec["init"] = ast.unparse(init) == "BoolType(True)"
-            if not (isinstance(gen, ast.GeneratorExp) and len(gen.generators) == 1 and not gen.generators[0].ifs
-                    and isinstance(gen.elt, ast.Call) and helper and ast.unparse(gen.elt.func) == helper and len(gen.elt.args) == 2):
+            if not (isinstance(gen, (ast.GeneratorExp, ast.ListComp)) and len(gen.generators) == 1 and not gen.generators[0].ifs
+                    and not gen.generators[0].is_async
+                    and isinstance(gen.elt, ast.Call) and isinstance(gen.elt.func, ast.Name) and len(gen.elt.args) == 2 and not gen.elt.keywords):
                 raise TranslationError(f"{fn.name}: unexpected generator {ast.unparse(gen)}")
+            hname = gen.elt.func.id
+            if hname in helpers:
+                spec["elemEq"], spec["capturesTE"] = helpers[hname]
+            else:
+                # one level of inlining: a helper extracted to module level (defined exactly once, not a parameter/local)
+                defs = [n for n in (mod.body if mod is not None else []) if isinstance(n, ast.FunctionDef) and n.name == hname]
+                rebound = [n for n in (mod.body if mod is not None else [])
+                           if (isinstance(n, (ast.Assign, ast.AnnAssign, ast.AugAssign, ast.For, ast.With, ast.If, ast.Try))
+                               and hname in {x.id for x in ast.walk(n) if isinstance(x, ast.Name) and isinstance(x.ctx, ast.Store)})
+                           or (isinstance(n, ast.ClassDef) and n.name == hname)
+                           or (isinstance(n, (ast.Import, ast.ImportFrom)) and any((al.asname or al.name).split(".")[0] == hname for al in n.names))]
+                if len(defs) != 1 or rebound or hname in params:
+                    raise TranslationError(f"{fn.name}: element comparison {hname} is neither a local nor a unique module-level helper")
+                spec["elemEq"], spec["capturesTE"] = analyze_helper(defs[0], fn.name)
             g = gen.generators[0]
             a0, a1 = [ast.unparse(x) for x in gen.elt.args]
             if is_map:
@@ -264,8 +460,35 @@ def lean_cont(spec) -> str:
 # per-class comparison dunders
 # ---------------------------------------------------------------------------------------------------------------
 
-def classify_cmp(clsname: str, cls: ast.ClassDef, op: str):
-    """-> ('inherit'|'matched'|'plain'|'raisesTE'|'custom', sup, contspec)"""
+def analyze_helper(st: ast.FunctionDef, where: str) -> Tuple[bool, bool]:
+    """`def equal(s, o): try: return BoolType(s == o) except TypeError as ex: return cast(BoolType, ex)` -> (elemEq, capturesTE)"""
+    hp = [a.arg for a in st.args.args]
+    hb = body_of(st)
+    if st.decorator_list or st.args.vararg or st.args.kwarg or st.args.kwonlyargs or st.args.defaults:
+        raise TranslationError(f"{where}: unexpected signature/decorators of helper {st.name}")
+    if len(hp) == 2 and len(hb) == 1 and isinstance(hb[0], ast.Try) and len(hb[0].body) == 1 and isinstance(hb[0].body[0], ast.Return):
+        r = uncast(hb[0].body[0].value)
+        if (isinstance(r, ast.Call) and ast.unparse(r.func) == "BoolType" and len(r.args) == 1
+                and isinstance(r.args[0], ast.Compare) and len(r.args[0].ops) == 1
+                and ast.unparse(r.args[0].left) == hp[0] and ast.unparse(r.args[0].comparators[0]) == hp[1]
+                and type(r.args[0].ops[0]) in (ast.Eq, ast.NotEq)):
+            elem_eq = isinstance(r.args[0].ops[0], ast.Eq)
+            hs = hb[0].handlers
+            capt = False
+            if (len(hs) == 1 and exc_names(hs[0].type) == ["TypeError"] and hs[0].name and len(hs[0].body) == 1
+                    and isinstance(hs[0].body[0], ast.Return) and ast.unparse(uncast(hs[0].body[0].value)) == hs[0].name
+                    and not hb[0].orelse and not hb[0].finalbody):
+                capt = True
+            elif hs:
+                raise TranslationError(f"{where}: unexpected handlers in {st.name}")
+            return elem_eq, capt
+    raise TranslationError(f"{where}: unexpected helper {st.name}")
+
+
+def classify_cmp(clsname: str, cls: ast.ClassDef, op: str, mod: Optional[ast.Module] = None):
+    """-> ('inherit'|'matched'|'plain'|'raisesTE'|'custom', sup, contspec).  The scalar dunders are *run* (SymExec): what counts
+    is that the body hands back the native base's `__sup__(self, other)` (spelled `super().__sup__(other)` or
+    `<Base>.__sup__(self, other)`, through locals / cast or not) or raises TypeError."""
     ms = class_methods(cls)
     name = f"__{op}__"
     if name not in ms:
@@ -275,55 +498,100 @@ def classify_cmp(clsname: str, cls: ast.ClassDef, op: str):
         raise TranslationError(f"{clsname}.{name} is an alias")
     decs = decorators(fn)
     params = [a.arg for a in fn.args.args]
-    body = body_of(fn)
-    if len(body) == 1 and is_raise_typeerror(body[0]) and not decs:
-        return "raisesTE", None, None
-    if len(body) == 1 and isinstance(body[0], ast.Return) and body[0].value is not None:
-        sup = is_super_call(body[0].value, params)
-        if sup in RELOPS:
-            if decs == ["type_matched"]:
-                return "matched", sup, None
-            if not decs:
-                return "plain", sup, None
+    a = fn.args
     if clsname in ("ListType", "MapType") and op in ("eq", "ne") and not decs:
-        return "custom", None, extract_cont(fn, clsname == "MapType")
+        return "custom", None, extract_cont(fn, clsname == "MapType", mod)
+    if len(params) != 2 or a.vararg or a.kwarg or a.kwonlyargs or a.defaults:
+        raise TranslationError(f"{clsname}.{name}: expected (self, other)")
+    bases = base_names(cls)
+
+    def atom(node, ev):
+        if (isinstance(node, ast.Call) and isinstance(node.func, ast.Attribute) and not node.keywords
+                and re.fullmatch(r"__(\w+)__", node.func.attr)):
+            sup = node.func.attr[2:-2]
+            recv = node.func.value
+            if (isinstance(recv, ast.Call) and isinstance(recv.func, ast.Name) and recv.func.id == "super" and not recv.args
+                    and not recv.keywords and len(node.args) == 1 and ev(node.args[0]) == S_OTHER):
+                return (S_SUPER, sup)
+            if (len(bases) == 1 and ast.unparse(recv) == bases[0] and len(node.args) == 2
+                    and [ev(x) for x in node.args] == [S_SELF, S_OTHER]):
+                return (S_SUPER, sup)
+        return UNHANDLED
+    res = SymExec(f"{clsname}.{name}", atom, module=None).run(body_of(fn), {params[0]: S_SELF, params[1]: S_OTHER})
+    if res == ("raise", "TypeError") and not decs:
+        return "raisesTE", None, None
+    if res[0] == "return" and isinstance(res[1], tuple) and len(res[1]) == 2 and res[1][0] == S_SUPER and res[1][1] in RELOPS:
+        if decs == ["type_matched"]:
+            return "matched", res[1][1], None
+        if not decs:
+            return "plain", res[1][1], None
     raise TranslationError(f"{clsname}.{name}: body outside the subset")
 
 
 def extract_boolean(ev: ast.Module) -> Tuple[bool, bool]:
-    fn = find_func(ev.body, "boolean")
-    inner = [s for s in fn.body if isinstance(s, ast.FunctionDef)]
-    if len(inner) != 1:
-        raise TranslationError("boolean(): expected one inner function")
-    inner = inner[0]
-    a, b = [x.arg for x in inner.args.args]
-    wrapped = [x.arg for x in fn.args.args][0]
-    body = body_of(inner)
-    passes = set()
-    rewraps = False
-    res = None
-    for st in body:
-        if (isinstance(st, ast.If) and isinstance(st.test, ast.Call) and ast.unparse(st.test.func) == "isinstance"
-                and len(st.test.args) == 2 and ast.unparse(st.test.args[1]) == "CELEvalError"
-                and len(st.body) == 1 and isinstance(st.body[0], ast.Return) and ast.unparse(st.body[0].value) == ast.unparse(st.test.args[0])):
-            passes.add(ast.unparse(st.test.args[0]))
-            continue
-        if isinstance(st, ast.Assign) and isinstance(st.value, ast.Call) and ast.unparse(st.value) == f"{wrapped}({a}, {b})":
-            res = ast.unparse(st.targets[0])
-            continue
-        if (isinstance(st, ast.If) and res and ast.unparse(st.test) in (f"{res} == NotImplemented", f"{res} is NotImplemented")
-                and len(st.body) == 1 and isinstance(st.body[0], ast.Return) and ast.unparse(uncast(st.body[0].value)) == res):
-            continue
-        if isinstance(st, ast.Return) and res:
-            r = uncast(st.value)
-            if isinstance(r, ast.Call) and ast.unparse(r.func).endswith("BoolType") and len(r.args) == 1 and ast.unparse(r.args[0]) in (f"bool({res})", res):
-                rewraps = True
-                continue
-            if ast.unparse(r) in (res, f"bool({res})"):
-                rewraps = False
-                continue
-        raise TranslationError(f"boolean(): statement outside the subset: {ast.unparse(st)[:80]!r}")
-    return passes == {a, b}, rewraps
+    """run the inner function of `boolean()` with (a is an error?, b is an error?, the wrapped function answers NotImplemented?)
+    -> (error operands are handed back without calling the wrapped function, the result is re-wrapped as BoolType)"""
+    fn = unique_func(ev, "boolean")
+    inner = _single_inner(fn, "boolean()")
+    pa, pb = [x.arg for x in inner.args.args]
+    wrapped = fn.args.args[0].arg
+    out = {}
+    for ea in (False, True):
+        for eb in (False, True):
+            for ni in (False, True):
+                calls = []
+                def atom(node, evl, ea=ea, eb=eb, ni=ni, calls=calls):
+                    if isinstance(node, ast.Call) and not node.keywords:
+                        f = ast.unparse(node.func)
+                        if f == "isinstance" and len(node.args) == 2 and ast.unparse(node.args[1]) in ("CELEvalError", "(CELEvalError,)"):
+                            x = evl(node.args[0])
+                            if x == S_A:
+                                return ea
+                            if x == S_B:
+                                return eb
+                            raise TranslationError(f"boolean(): error test on something else than an operand: {ast.unparse(node)}")
+                        if isinstance(node.func, ast.Name) and len(node.args) == 2:
+                            try:
+                                callee = evl(node.func)
+                            except TranslationError:
+                                callee = None
+                            if callee == S_F:
+                                if [evl(a) for a in node.args] != [S_A, S_B]:
+                                    raise TranslationError(f"boolean(): the wrapped function is not applied to (a, b): {ast.unparse(node)}")
+                                calls.append(1)
+                                return S_R
+                        if f == "bool" and len(node.args) == 1:
+                            return ("bool", evl(node.args[0]))
+                        if f in ("BoolType", "celtypes.BoolType", "celpy.celtypes.BoolType") and len(node.args) == 1:
+                            return ("BoolType", evl(node.args[0]))
+                    if isinstance(node, ast.Compare) and len(node.ops) == 1:
+                        l, r = evl(node.left), evl(node.comparators[0])
+                        if {l, r} == {S_R, S_NI}:
+                            if isinstance(node.ops[0], (ast.Eq, ast.Is)):
+                                return ni
+                            if isinstance(node.ops[0], (ast.NotEq, ast.IsNot)):
+                                return not ni
+                    return UNHANDLED
+                def name(ident):
+                    return S_NI if ident == "NotImplemented" else UNHANDLED
+                res = SymExec("boolean()", atom, name, module=ev).run(body_of(inner), {pa: S_A, pb: S_B, wrapped: S_F})
+                out[(ea, eb, ni)] = (res, len(calls))
+    passes = True
+    for (ea, eb, ni), (res, ncalls) in out.items():
+        if ea or eb:
+            allowed = [("return", x) for x, e in ((S_A, ea), (S_B, eb)) if e]
+            if res not in allowed or ncalls:
+                passes = False
+    res, ncalls = out[(False, False, False)]
+    if ncalls != 1:
+        raise TranslationError("boolean(): the wrapped function is not called exactly once on two proper operands")
+    if res in (("return", ("BoolType", ("bool", S_R))), ("return", ("BoolType", S_R))):
+        rewraps = True
+    elif res in (("return", S_R), ("return", ("bool", S_R))):
+        rewraps = False
+    else:
+        raise TranslationError(f"boolean(): unexpected result {res} on two proper operands")
+    return passes, rewraps
 
 
 def extract_route(ev: ast.Module, lark_text: str) -> Dict[str, Dict[str, str]]:
@@ -334,7 +602,18 @@ def extract_route(ev: ast.Module, lark_text: str) -> Dict[str, Dict[str, str]]:
     # bool_xx -> operator.yy
     boolfn = {}
     for st in ev.body:
+        # `bool_lt = boolean(operator.lt)` — the same function object as `def bool_lt(a, b): return boolean(operator.lt)(a, b)` computes with
+        if (isinstance(st, ast.Assign) and len(st.targets) == 1 and isinstance(st.targets[0], ast.Name) and st.targets[0].id.startswith("bool_")):
+            m = re.fullmatch(r"boolean\(operator\.(\w+)\)", ast.unparse(st.value))
+            if m:
+                unique_binding(ev, st.targets[0].id)
+                boolfn[st.targets[0].id] = m.group(1)
+                continue
+            raise TranslationError(f"{st.targets[0].id}: value outside the subset")
         if isinstance(st, ast.FunctionDef) and st.name.startswith("bool_"):
+            unique_binding(ev, st.name)
+            if st.decorator_list:
+                raise TranslationError(f"{st.name}: decorated")
             b = body_of(st)
             ps = [a.arg for a in st.args.args]
             if len(b) == 1 and isinstance(b[0], ast.Return):
@@ -401,7 +680,7 @@ def gen_compare() -> str:
         cls = find_class(m, clsname)
         bases.append(f'("{tag}", "{",".join(base_names(cls))}")')
         for op in RELOPS:
-            kind, sup, cont = classify_cmp(clsname, cls, op)
+            kind, sup, cont = classify_cmp(clsname, cls, op, m)
             if kind == "inherit":
                 continue
             if kind in ("matched", "plain"):
